@@ -19,6 +19,7 @@ import GivaroModel.Lemmas.PolyMidKara
 import GivaroModel.Lemmas.PadicLemmas
 import GivaroModel.Lemmas.PolyInterp
 import GivaroModel.Lemmas.PolyMore
+import GivaroModel.Lemmas.PolyCRT
 
 open Polynomial
 set_option linter.unusedSectionVars false
@@ -726,6 +727,33 @@ theorem interp_unique (pts : List (K × K)) (hd : (pts.map Prod.fst).Nodup) (F G
 example : ∃ (pts : List (ℚ × ℚ)) (F G : ℚ[X]), (pts.map Prod.fst).Nodup ∧ (∀ p ∈ pts, F.eval p.1 = p.2) ∧
     (∀ p ∈ pts, G.eval p.1 = p.2) ∧ F.degree < (pts.length : WithBot ℕ) ∧ G.degree < (pts.length : WithBot ℕ) :=
   ⟨[(0, 1)], 1, 1, by simp, by simp, by simp, by simp, by simp⟩
+
+/-- the scalar fused forms `axpy(r, a, x, y)` and `axpyin(r, a, x)` (coefficient loops over the common part, then the longer
+    operand): exact for all operands of any sizes -/
+theorem fused_scalar_exact (c : K) (R X' Y : List K) :
+    toPoly (axpyVal c X' Y) = C c * toPoly X' + toPoly Y ∧ toPoly (axpyinVal c R X') = toPoly R + C c * toPoly X' :=
+  ⟨Givaro.Lemmas.PolyCRT.toPoly_axpyVal c X' Y, Givaro.Lemmas.PolyCRT.toPoly_axpyinVal c R X'⟩
+
+/-! ### polynomial CRT (givpoly1crt.h) -/
+
+/-- `Poly1CRT::RnsToRing` as written (`ComputeCk`: `prod = Π_{j<k}(X - primes[j])`, `ck[k] = prod / prod(primes[k])`; then
+    `I = rns[0]`, `I += (rns[i] - I(primes[i]))·ck[i]`): for every number of pairwise distinct points and as many residues the
+    result takes the residue `rns[i]` at `primes[i]` for every `i` and has degree below the number of points — the CRT lift
+    modulo `Π (X - primes[i])`.  Every threshold; and `RingToRns` is evaluation at the points. -/
+theorem crt_exact (thr : Nat) (primes rns : List K) (hne : primes ≠ []) (hlen : rns.length = primes.length)
+    (hnd : primes.Nodup) :
+    (∀ q ∈ primes.zip rns, (toPoly (Givaro.Model.PolyCRT.rnsToRing thr primes rns)).eval q.1 = q.2) ∧
+    (toPoly (Givaro.Model.PolyCRT.rnsToRing thr primes rns)).degree < (primes.length : WithBot ℕ) ∧
+    ∀ a : List K, Givaro.Model.PolyCRT.ringToRns primes a = primes.map (fun p => (toPoly a).eval p) := by
+  obtain ⟨h1, h2⟩ := Givaro.Lemmas.PolyCRT.rnsToRing_spec thr primes rns hne hlen hnd
+  refine ⟨h1, h2, fun a => ?_⟩
+  unfold Givaro.Model.PolyCRT.ringToRns
+  apply List.map_congr_left
+  intro p _
+  exact eval_eq a p
+
+example : ∃ (primes rns : List ℚ), primes ≠ [] ∧ rns.length = primes.length ∧ primes.Nodup :=
+  ⟨[0, 1], [1, 2], by simp, by simp, by simp⟩
 
 /-! ### p-adic conversion (givpoly1padic.h) -/
 
